@@ -462,6 +462,9 @@ func factsC15(r *Repo) []Fact {
 	// ---------------- untyped nil values: checker guard, kind lists (c15_nil.go) ----------------
 	out = append(out, c15NilFacts(cp)...)
 
+	// ---------------- paths the static check lets through but nothing can walk (c15_deep.go) ----------------
+	out = append(out, c15DeepFacts(cp)...)
+
 	// ---------------- the handler managers (graph_manager.go) ----------------
 	out = append(out, c15ChainFacts(cp, "preNodeHandlerManager", "preNode")...)
 	out = append(out, c15ChainFacts(cp, "preBranchHandlerManager", "preBranch")...)
